@@ -29,7 +29,7 @@ import re
 PROP = 'C16'
 LEVEL = 'exploration'
 BUDGET = {'quick': 30, 'thorough': 400}
-FLOOR = {'quick': 4000, 'thorough': 60000}
+FLOOR = {'quick': 6000, 'thorough': 150000}
 EXHAUSTIVE = {'quick': True, 'thorough': True}
 RULE = ('(1) bounded-exhaustive part: every program of n statements (statement = `$x|$y: <fresh literal>` plain / !default / '
         '!global, a read of $x or $y, or a non-empty container) between the prologue `$x: 0;` ($y is not declared) and '
